@@ -82,7 +82,7 @@ theorem wireAck_check {s : St} {m rid part first last ty t : Nat} (h : check s (
     split at h
     · rename_i b hb
       split at h
-      · simp at h
+      · split at h <;> simp at h
       · rename_i hlt
         split at h
         · simp at h
